@@ -868,6 +868,11 @@ class OptionalSerializer(Generic[T, T_NP], TypeSerializer[Optional[T], np.void])
         self._none = cast(np.void, np.zeros((), dtype=self.overall_dtype())[()])
 
     def write(self, stream: CodedOutputStream, value: Optional[T]) -> None:
+        if isinstance(value, np.void) and value.dtype.names == ("has_value", "value"):
+            # the field of an array element: a record's write_numpy hands its fields to write()
+            self.write_numpy(stream, value)
+            return
+
         stream.ensure_capacity(1)
         if value is None:
             stream.write_byte_no_check(0)
